@@ -101,6 +101,28 @@ func TestC13(t *testing.T) {
 		if rapid.IntRange(0, 2).Draw(rt, "deps") == 0 {
 			f.Deps = []model.Prop{{Name: "depkey", Node: &model.Node{Kind: model.KObject, Props: []model.Prop{{Name: "q", Node: &model.Node{Kind: model.KString}}}}}}
 		}
+		if rapid.IntRange(0, 2).Draw(rt, "innerdeps") == 0 {
+			// the same inert keyword on non-root schemas (object properties and definitions), with an
+			// anything-schema among the entries ({} or true, by spelling) next to an object schema
+			var hosts []*model.Node
+			visit := func(n *model.Node) {
+				if n.Kind == model.KObject && n != f.Root {
+					hosts = append(hosts, n)
+				}
+			}
+			model.Walk(f.Root, visit)
+			for _, d := range f.Defs {
+				model.Walk(d.Node, visit)
+			}
+			if len(hosts) > 0 {
+				h := rapid.SampledFrom(hosts).Draw(rt, "depshost")
+				h.Deps = []model.Prop{
+					{Name: "voucher", Node: &model.Node{Kind: model.KAny}},
+					{Name: "card", Node: &model.Node{Kind: model.KObject, Props: []model.Prop{{Name: "cvc", Node: &model.Node{Kind: model.KString}}}}},
+				}
+				c.Count("shape.dependency_schemas_on_inner_schema")
+			}
+		}
 		cfg := drawOptions(rt)
 		cfg.ResolveExtensions = []string{".json", ".yaml"}
 		if rapid.IntRange(0, 2).Draw(rt, "rootmapping") == 0 {
@@ -147,11 +169,23 @@ func TestC13(t *testing.T) {
 		}
 		spA, fmtA, namesA := draw("a.")
 		spB, fmtB, namesB := draw("b.")
+		// a YAML file whose extension is written in upper case, declared with --yaml-extension in
+		// the same case (the only way to have it read as YAML): same schema, same code
+		yamlName := "prog.yaml"
+		if !noExt && rapid.IntRange(0, 3).Draw(rt, "upperyamlext") == 0 {
+			ext := rapid.SampledFrom([]string{".YML", ".YAML", ".Yaml"}).Draw(rt, "yamlextcase")
+			yamlName = "prog" + ext
+			cfg.YAMLExtensions = []string{ext}
+			// the root type is named after the file name minus a --resolve-extension value: list the
+			// extension there too, as the json/yaml pair is, so that the name does not depend on it
+			cfg.ResolveExtensions = append(cfg.ResolveExtensions, ext)
+			c.Count("pair.upper_case_yaml_extension")
+		}
 		render := func(sp model.Spelling, format model.Format) *gen.Case {
 			f.Spelling, f.Format = sp, format
 			f.RelPath = "prog.json"
 			if format == model.YAML {
-				f.RelPath = "prog.yaml"
+				f.RelPath = yamlName
 			}
 			cs := caseOf(cfg, []string{f.RelPath}, f)
 			if noExt {
